@@ -451,7 +451,7 @@ func genHistory(c *core.Chooser, prop string, tid int, maxOps int) []hop {
 		case 7:
 			o.smpp = c.Bool()
 			o.text = genSMSText(c, famGSM7U, 20+c.Intn(300), nil2run)
-			o.ref = byte(tid) // unique per in-flight Build: keeps adopted workers distinguishable
+			o.ref = byte(tid)    // unique per in-flight Build: keeps adopted workers distinguishable
 			o.coding = c.Intn(3) // 0 a fresh builder; 1, 2: the task's own builder value, used again and again
 		}
 		ops = append(ops, o)
@@ -463,16 +463,16 @@ func genHistory(c *core.Chooser, prop string, tid int, maxOps int) []hop {
 var nil2run = core.NewRun(core.NewSeedChooser(1), core.Config{}, nil)
 
 type taskState struct {
-	id    int
-	ops   []hop
-	ref   []hres // sequential reference results
-	res   []hres
-	conn  *simnet.SimConn
-	proto string
-	link  *byteLink
-	cd    codec.Codec
-	done  bool
-	kept  map[string]protocol.PDU // values the task decodes into again and again
+	id      int
+	ops     []hop
+	ref     []hres // sequential reference results
+	res     []hres
+	conn    *simnet.SimConn
+	proto   string
+	link    *byteLink
+	cd      codec.Codec
+	done    bool
+	kept    map[string]protocol.PDU          // values the task decodes into again and again
 	builder *protocol.BatchDataCodingEncoder // the task's own builder value
 	// blocked: the task reads its connection through the blocking extractor, whose frames belong to the caller
 	blocked bool
